@@ -595,6 +595,7 @@ Definition k_is_idle (k : kstate) : bool :=
   && (match k_replay k with None => true | _ => false end)
   && (match k_caps_word k with None => true | _ => false end)
   && (match k_vkeys_pending k with [] => true | _ => false end)
+  && forallb (fun pk => mem_n pk (keycodes l)) (k_prev_keys k)     (* no key release pending for the next tick *)
   && negb (existsb (fun s => match s with
                              | SeqCustomPending _ | SeqCustomActive _ => true
                              | NormalKey _ _ _ => pressed_keys_means_not_idle
